@@ -278,8 +278,8 @@ func (fr *Frame) callSiteClauses(st *State, in ssa.Instruction, recv *Val, args 
 		for k, av := range args {
 			env.vars[fmt.Sprintf("arg%d", k)] = av
 		}
-		if a.Kind == "assume_after" {
-			continue // applied by callSiteAfter
+		if a.Kind == "assume_after" || a.Kind == "ghost_after" {
+			continue // applied by callSiteAfter / callSiteGhostAfter
 		}
 		if a.Kind == "cover" {
 			t, err := env.evalClause(a.E)
@@ -346,6 +346,28 @@ func (fr *Frame) callSiteAfter(st *State, in ssa.Instruction) {
 	}
 }
 
+// callSiteGhostAfter: `ghost_after` clauses of a call site, applied in the state right after the call
+// returned, with result0, result1, ... bound to the call's results.
+func (fr *Frame) callSiteGhostAfter(st *State, in ssa.Instruction, results []*Val) {
+	c := fr.c
+	if fr.contract == nil {
+		return
+	}
+	ord := c.callOrd[in]
+	for _, a := range fr.contract.Asserts[ord] {
+		if a.Kind != "ghost_after" {
+			continue
+		}
+		env := fr.envAt(st)
+		for k, r := range results {
+			env.vars[fmt.Sprintf("result%d", k)] = r
+		}
+		if err := c.ghostAssign(env, a); err != nil {
+			c.errorf("%s: ghost_after at %s: %v", fr.fn.Name(), ord, err)
+		}
+	}
+}
+
 func (fr *Frame) unknownCall(st *State, in ssa.Instruction, what string, sig *types.Signature) *Val {
 	c := fr.c
 	c.unknown[what] = true
@@ -356,7 +378,9 @@ func (fr *Frame) unknownCall(st *State, in ssa.Instruction, what string, sig *ty
 	fr.restoreCaptured(pre, st)
 	fr.restorePrivate(pre, st)
 	fr.bumpAlloc(st)
-	return resultVal(sig, fr.freshResults(st, sig, "unk"))
+	res := fr.freshResults(st, sig, "unk")
+	fr.callSiteGhostAfter(st, in, res)
+	return resultVal(sig, res)
 }
 
 // contractVars binds receiver/parameter/result names of a contract.
@@ -517,6 +541,7 @@ func (fr *Frame) applyContract(st *State, in ssa.Instruction, ct *Contract, sig 
 	}
 	fr.lockHook(st, in, ct, recv, false)
 	fr.callSiteAfter(st, in)
+	fr.callSiteGhostAfter(st, in, results)
 	return resultVal(sig, results)
 }
 
